@@ -440,6 +440,10 @@ func (x *Exec) assumeTyped(st *State, v Val, ty types.Type) {
 	case VIface:
 		if !v.Tag.IsConst() {
 			x.assumeOnce(term.Le(term.I(0), v.Tag))
+			// the nil interface is (no type, no data): a value without dynamic type carries no data
+			if v.Data != nil && !v.Data.IsConst() {
+				x.assumeOnce(term.Imp(term.Eq(v.Tag, term.I(0)), term.Eq(v.Data, term.I(0))))
+			}
 		}
 	case VStruct:
 		st2 := ty.Underlying().(*types.Struct)
